@@ -105,6 +105,42 @@ Theorem C15_capture_coherent_partial : forall whole np t g t1,
 Proof. exact suspend_keeps_upvalues. Qed.
 Print Assumptions C15_capture_coherent_partial.
 
+(* The value stack is an ARRAY that is reallocated (capacity doubled, contents copied, old array abandoned)
+   when more than 70 % of it is in use; a resume may be the operation that makes it grow.  Whatever the growth
+   policy of the resume prologue decides (never = the code as it is, [needs_grow] = the 70 % rule, always),
+   for EVERY capacity, stack level and saved frame that fits: pushing the frame at a destination computed in
+   the array that is live AFTER the growth gives the old live stack followed by the saved frame slice, i.e.
+   exactly the list-level [resume] of the theorems above (so depth and reallocation do not matter). *)
+Theorem C15_resume_after_grow : forall policy g a,
+  a_sp a + length (g_stack g) <= length (a_arr a) ->
+  let a' := resume_arr policy g a in
+  live a' = live a ++ g_stack g /\
+  a_sp a' = a_sp a + length (g_stack g) /\
+  skipn (a_sp a) (live a') = g_stack g /\
+  firstn (a_sp a) (live a') = live a /\
+  length (a_arr a') = (if policy (a_sp a + length (g_stack g)) (length (a_arr a)) then 2 * length (a_arr a) else length (a_arr a)).
+Proof. exact resume_after_grow. Qed.
+Print Assumptions C15_resume_after_grow.
+
+Theorem C15_resume_arr_refines : forall policy g a t,
+  a_sp a + length (g_stack g) <= length (a_arr a) ->
+  stack t = live a -> stack (resume g t) = live (resume_arr policy g a).
+Proof. exact resume_arr_refines. Qed.
+Print Assumptions C15_resume_arr_refines.
+
+(* A prologue that takes the destination slice BEFORE the growth check and copies through it afterwards writes
+   the frame into the abandoned array: witness with capacity 10, sp = 7, frame [100; 5] (9 > 0.7 * 10): the
+   resumed body sees the stale slots [0; 0].  Not the code of /repo (its prologue has no growth check); this is
+   the class of defect the depth sweep of stream c15.wrap looks for. *)
+Theorem C15_resume_before_grow_refuted :
+  a_sp wit_arr + length (g_stack wit_gen) <= length (a_arr wit_arr) /\
+  needs_grow (a_sp wit_arr + length (g_stack wit_gen)) (length (a_arr wit_arr)) = true /\
+  live (resume_arr needs_grow wit_gen wit_arr) = [1; 2; 3; 4; 5; 6; 7; 100; 5]%Z /\
+  live (resume_arr_stale needs_grow wit_gen wit_arr) = [1; 2; 3; 4; 5; 6; 7; 0; 0]%Z /\
+  live (resume_arr_stale needs_grow wit_gen wit_arr) <> live wit_arr ++ g_stack wit_gen.
+Proof. exact resume_before_grow_witness. Qed.
+Print Assumptions C15_resume_before_grow_refuted.
+
 (* Every promise settles exactly once, any pool size, any interleaving (C16 protocol model). *)
 Theorem C15_settle_once : forall c s, C16_Await.reachable c s -> forall t, t < length (C16_Await.c_tasks c) ->
   nth t (C16_Await.s_settles s) 0 = (if C16_Await.is_done (C16_Await.st_of s t) then 1 else 0).
